@@ -1,2 +1,77 @@
--- Driver stub for C06 (replaced when the property's model driver is written).
-def main : IO Unit := IO.println "C06: no driver yet"
+import TsVerif.Common.IO
+import TsVerif.C06.Judge
+/-!
+Driver for C06: per case the internal dump, the root id, the cursor preorder walk (`v` lines) and
+one line per API question (`o` lines); prints
+`<id> judge=<ok|FAIL clauses :: details> asked=.. vis=.. raw=.. fanout=.. hiddenvis=.. alias=.. …`.
+-/
+open TsVerif TsVerif.C02 TsVerif.C06 TsGen
+
+structure St where
+  langs : Std.HashMap String Lang := {}
+  defId : String := ""
+  defLang : Lang := {}
+  id : String := ""
+  lang : String := ""
+  kind : String := ""
+  text : Array Nat := #[]
+  dump : Array String := #[]
+  rootId : Nat := 0
+  ctx : Option Ctx := none
+  fanout : Nat := 0
+  root : Tree := default
+  res : Res := {}
+  vcount : Nat := 0
+  mode : Nat := 0
+
+def ensureCtx (s : St) : St :=
+  match s.ctx with
+  | some _ => s
+  | none =>
+    match s.langs.get? s.lang, parseDump s.dump.toList with
+    | some lang, some d => { s with ctx := some (mkCtx lang d.root s.rootId), fanout := maxFanout d.root, root := d.root }
+    | _, _ => s
+
+def finish (s : St) : String :=
+  match s.ctx, s.langs.get? s.lang, parseDump s.dump.toList with
+  | some c, some lang, some d =>
+    let e : Env := { lang := lang, text := s.text, tbl := posTable s.text }
+    let (js, _) := walk e d.root length_zero 0 true 0 0 s.text.size [] {}
+    let r := s.res
+    let r := if s.vcount == c.ft.size then r else
+      { r with fails := r.fails.add "walk:count" fun _ => s!"cursor walk visited {s.vcount} nodes, tree has {c.ft.size}" }
+    let fields := (c.ft.toList.filter fun f => f.info.fields.any (!·.isEmpty)).length
+    s!"{s.id} corr={r.corrFails.render} judge={r.fails.render} asked={r.asked} ported={r.portCompared} vis={c.ft.size} raw={js.rawNodes} fanout={s.fanout} hiddenvis={js.hiddenWithVisible} alias={js.aliases} extra={js.extras} err={js.errors} missing={js.missing} zerowidth={js.zeroWidth} multiline={js.multiline} fields={fields} kind={s.kind}"
+  | _, _, _ => s!"{s.id} corr=BADINPUT judge=BADINPUT asked=0"
+
+def step (s : St) (line : String) : IO St := do
+  if s.mode == 1 then
+    if line == "enddeflang" then
+      return { s with mode := 0, langs := s.langs.insert s.defId s.defLang }
+    else return { s with defLang := s.defLang.addLine line }
+  if s.mode == 2 then
+    if line == "end" then return { s with mode := 0 } else return { s with dump := s.dump.push line }
+  if line.startsWith "o " then
+    let s := ensureCtx s
+    match s.ctx with
+    | some c => return { s with res := judgeLine c s.root s.rootId s.res line }
+    | none => return s
+  if line.startsWith "v " then
+    let s := ensureCtx s
+    match s.ctx with
+    | some c => return { s with res := judgeLine c s.root s.rootId s.res line, vcount := s.vcount + 1 }
+    | none => return s
+  match line.splitOn " " with
+  | ["deflang", id] => return { s with mode := 1, defId := id, defLang := {} }
+  | ["case", id] => return { langs := s.langs, id := id }
+  | ["lang", l] => return { s with lang := l }
+  | ["kind", k] => return { s with kind := k }
+  | ["text", h] => return { s with text := (unhexBytes h).toArray }
+  | ["text"] => return { s with text := #[] }
+  | "tree" :: _ => return { s with mode := 2, dump := #[] }
+  | ["rootid", h] => return { s with rootId := parseHexNat h }
+  | ["run"] => IO.println (finish (ensureCtx s)); return s
+  | _ => return s
+
+def main : IO Unit := do
+  let _ ← foldLines (← IO.getStdin) ({} : St) step
